@@ -118,6 +118,12 @@ def gen_coder(r):
 def gen_sizes():
     """internal buffer sizes of the coders and of bit I/O, as regenerated from the sources into coq/gen/Gen_Comp.v"""
     txt = open(os.path.join(vc.COQ, "gen", "Gen_Comp.v")).read()
+    if "translator_failed" in txt:
+        # the translator no longer follows the sources (reported as a broken proof obligation); the search for a failing
+        # input still runs, with the sizes of the last committed translation
+        rc, old = vc.sh(["git", "-C", vc.VERIF, "show", "HEAD:coq/gen/Gen_Comp.v"])
+        if rc == 0:
+            txt = old
     d = {m.group(1): int(m.group(2)) for m in re.finditer(r"Definition ([A-Z_0-9]+) : Z := \(?(-?\d+)\)?\.", txt)}
     need = ["RLE_BUF_SIZE", "TMP_BUF_SIZE", "SKP_TMP_BUF_SIZE", "NBIT_BUF_SIZE", "BITBUF_SIZE", "DEFLATE_BUF_SIZE",
             "DEFLATE_TMP_BUF_SIZE"]
@@ -149,6 +155,7 @@ def gen_boundary_element(r, sizes, which):
         sz = NT[nt]
         ln = r.choice([8 * sz, 8 * sz - 1, 8 * sz - 3])
         coder, p, unit, bufs = 2, [nt, r.randrange(2), r.randrange(2), 8 * sz - 1, ln], sz, [sizes["BITBUF_SIZE"], sizes["NBIT_BUF_SIZE"]]
+    bitlen = p[4] if coder == 2 else None
     big = bufs[0]
     n = 2 * big + r.choice([1, 2, 3, r.randrange(4, 300)])
     n += (-n) % unit
@@ -163,41 +170,51 @@ def gen_boundary_element(r, sizes, which):
     for a, b2 in zip(cuts, cuts[1:]):
         ops.append("W %d %s" % (b2 - a, " ".join(map(str, data[a:b2]))))
 
-    def aimed(ops):
-        pos = 0
+    def aimed(ops, pos):
         targets = []
         for b in bufs:
             targets += [b - 1, b, b + 1, 2 * b - 1, 2 * b, 2 * b + 1, around(r, b)]
         r.shuffle(targets)
-        for t in targets[:r.randrange(5, 9)]:
+        targets = targets[:r.randrange(5, 9)]
+        if bitlen:
+            # n-bit: values whose first bit lies in the first byte of a bit-I/O block (bit offset 0..7 in that byte)
+            B = sizes["BITBUF_SIZE"]
+            for kb in (1, 2):
+                v = -(-(8 * B * kb) // bitlen)
+                for vv in (v, v + 1):
+                    if (vv * bitlen) // 8 == B * kb and vv * unit <= n:
+                        targets.insert(r.randrange(0, len(targets) + 1), vv * unit)
+        for t in targets:
             t = min(n, t - t % unit)
             c = r.random()
             if c < 0.45:
                 # forward skip of about t bytes from a small offset (restart + skip when going backwards)
                 small = r.choice([0, unit, 7 * unit])
-                ops.append("S %d" % small)
-                ops.append("S %d" % min(n, small + t))
+                ops.append(seek_op(r, small, pos, n))
+                ops.append(seek_op(r, min(n, small + t), small, n))
                 pos = min(n, small + t)
             elif c < 0.8:
-                ops.append("S %d" % t)
+                ops.append(seek_op(r, t, pos, n))
                 pos = t
             else:
-                ops.append("S 0")
+                ops.append(seek_op(r, 0, pos, n))
                 k = min(n, t)
                 ops.append("R %d" % k)
                 pos = k
+            if r.random() < 0.2:
+                ops.append(r.choice(["T", "Q"]))
             left = n - pos
             if left > 0:
                 k = min(left, r.choice([unit, 3 * unit, 40 * unit, max(unit, (bufs[-1] + 1) - (bufs[-1] + 1) % unit)]))
                 ops.append("R %d" % k)
                 pos += k
     if r.random() < 0.5:
-        aimed(ops)
+        aimed(ops, n)
     ops += ["E", "Z", "X"]
     if r.random() < 0.7:
         ops.append("C")
     ops.append("OR")
-    aimed(ops)
+    aimed(ops, 0)
     ops.append("E")
     return "E %d %s %d %s" % (coder, " ".join(map(str, p)), len(ops), " ".join(ops))
 
@@ -240,7 +257,15 @@ def gen_bit_block_case(r, sizes):
                 rd(r.choice([8, 16, 32, 32, 17, 9, 1, 5, 7]))
     for _ in range(r.randrange(4, 12)):
         c = r.random()
-        if c < 0.5:
+        if c < 0.25:
+            # exactly the first byte of a block, with and without a bit offset, coming from the block before it
+            blk = r.randrange(1, k + 1)
+            if r.random() < 0.6:
+                sk(8 * (blk - 1) * B + r.randrange(0, 8 * B - 8))
+                if r.random() < 0.5:
+                    rd(r.choice([1, 8, 13]))
+            sk(8 * blk * B + r.choice([0, 1, 2, 3, 4, 5, 6, 7, 1, 7]))
+        elif c < 0.5:
             sk(8 * k * B + r.randrange(0, 8 * (L - k * B)))          # inside the short last block
         elif c < 0.75:
             sk(r.randrange(0, total))
@@ -277,15 +302,26 @@ def gen_bit_long_write_case(r, sizes, tier="quick"):
     return "B %d %s" % (len(ops), " ".join(ops))
 
 
-def read_phase(r, ops, n, unit):
-    """reads and seeks inside [0, n]; returns nothing, appends ops"""
-    pos = 0
+def seek_op(r, target, pos, n):
+    """Hseek to an absolute target expressed through a random origin: DF_START, DF_CURRENT (relative to the current
+    position) or DF_END (relative to the length of the uncompressed data)"""
+    c = r.random()
+    if c < 0.5:
+        return "S %d" % target
+    if c < 0.75:
+        return "SC %d" % (target - pos)
+    return "SE %d" % (target - n)
+
+
+def read_phase(r, ops, n, unit, pos=0):
+    """reads and seeks (all three origins) inside [0, n] starting at position pos, with Htell / Hinquire probes;
+    appends ops, returns the final position"""
     for _ in range(r.randrange(1, 9)):
         c = r.random()
         if c < 0.35:
             off = r.choice([0, n, r.randrange(0, n + 1), max(0, pos - unit), min(n, pos + unit)])
             off -= off % unit
-            ops.append("S %d" % off)
+            ops.append(seek_op(r, off, pos, n))
             pos = off
         else:
             left = n - pos
@@ -300,6 +336,9 @@ def read_phase(r, ops, n, unit):
                 k = min(unit, left)
             ops.append("R %d" % k)
             pos += k if k else left
+        if r.random() < 0.25:
+            ops.append(r.choice(["T", "Q"]))
+    return pos
 
 
 def gen_element_case(r, tier):
@@ -318,11 +357,12 @@ def gen_element_case(r, tier):
     c = r.random()
     if c < 0.3:
         # rewrite in full from the start (new length >= old length)
+        p0 = n
         if r.random() < 0.15:
-            read_phase(r, ops, n, unit)
+            p0 = read_phase(r, ops, n, unit, n)
         n2 = n + r.choice([0, 0, unit, 5 * unit, r.randrange(0, 200) * unit])
         d2 = gen_data(r, n2, unit)
-        ops.append("S 0")
+        ops.append(seek_op(r, 0, p0, n))
         i = 0
         parts2 = [n2] if coder in (1, 3, 4) else partition(r, n2, unit)
         for k in parts2:
@@ -331,14 +371,16 @@ def gen_element_case(r, tier):
         final = n2
     elif c < 0.38:
         # append more after reading back on the same id
-        read_phase(r, ops, n, unit)
-        ops.append("S %d" % n)
+        p1 = read_phase(r, ops, n, unit, n)
+        ops.append(seek_op(r, n, p1, n))
         m = r.randrange(1, 60) * unit
         d2 = gen_data(r, m, unit)
         ops.append("W %d %s" % (m, " ".join(map(str, d2))))
         final = n + m
     if r.random() < 0.4:
-        read_phase(r, ops, final, unit)
+        read_phase(r, ops, final, unit, final)
+    if r.random() < 0.3:
+        ops.append(r.choice(["T", "Q"]))
     ops.append("E")
     ops += ["Z", "X"]
     for _ in range(r.randrange(1, 3)):
@@ -350,7 +392,7 @@ def gen_element_case(r, tier):
     if r.random() < 0.08:
         # reopen for writing and append
         ops.append("OW")
-        ops.append("S %d" % final)
+        ops.append(seek_op(r, final, 0, final))
         m = r.randrange(1, 40) * unit
         d2 = gen_data(r, m, unit)
         ops.append("W %d %s" % (m, " ".join(map(str, d2))))
@@ -421,7 +463,9 @@ def run_batch(ctx, lines, tag, model=True):
         fh.write("\n".join(lines) + "\n")
     import time
     t0 = time.time()
-    rc, R = vc.run_lines(exe, p, timeout=1500, args=[scratch])
+    # the library normally needs about a second for a whole batch: a run that does not come back is a hang in the
+    # library on the first case without output, handled like a crash (rc 124)
+    rc, R = vc.run_lines(exe, p, timeout=90 if ctx.tier == "quick" else 600, args=[scratch])
     R = [l for l in R if l.startswith("R ") or l == "R"]
     t1 = time.time()
     if not model:
@@ -617,8 +661,9 @@ def signature(line):
             pos += k
             length = max(length, pos)
             i += 2 + k
-        elif t == "S":
-            pos = int(l[i + 1])
+        elif t in ("S", "SC", "SE"):
+            a = int(l[i + 1])
+            pos = a if t == "S" else (pos + a if t == "SC" else length + a)
             flag = True
             i += 2
         elif t == "R":
@@ -713,7 +758,7 @@ def run(ctx):
         if not ok:
             ctx.violation("library differs from the specification: " + detail,
                           "# C05 replay (bin/check C05 --replay <this file>)\n# " + detail + "\n" + line +
-                          "\n# library:       " + (rl or "crash (sanitizer report or signal)") + "\n# specification: " + S[i],
+                          "\n# library:       " + (rl or "crash (sanitizer report / signal) or hang (no answer within the time limit)") + "\n# specification: " + S[i],
                           found=True, signature=sig)
             if len(ctx.violations) >= 3:
                 break
